@@ -24,6 +24,7 @@ func init() {
 }
 
 func runC11(c *Ctx, r *Report, tier string) {
+	r.Rule("TAG", "every entry call of convert / convertToString passes the declaring option's / argument's tag; nested calls pass it on", 12)
 	r.Rule("KIND", "each strconv parser is reachable for exactly its own kinds", 4)
 	r.Rule("SIZE", "bit size = retval.Type().Bits(); base = getBase(options, 10)#0", 5)
 	r.Rule("EXACT-STORE", "the stored value is the parse result itself", 6)
@@ -35,6 +36,27 @@ func runC11(c *Ctx, r *Report, tier string) {
 
 	cv := c.mustFn(r, "convert")
 	set := c.mustFn(r, "(*Option).Set")
+	// TAG: the tag (base, …) that governs a conversion is the declaring option's / argument's own
+	for _, cv := range []*ssa.Function{cv, c.mustFn(r, "convertToString")} {
+		if cv == nil {
+			continue
+		}
+		ti := len(cv.Params) - 1
+		sites, _ := c.callersOf(cv)
+		n := 0
+		for _, s := range sites {
+			if c.actsFor(s.Fn, cv) {
+				t := c.term(s.Call.Common().Args[ti])
+				r.Check(t == fmt.Sprintf("P%d", ti), "TAG", c.fname(s.Fn), "nested conversion keeps the tag", c.ipos(s.Call), "options parameter passed on", "nested convert is given "+trunc(t, 80))
+				continue
+			}
+			n++
+			t := c.term(s.Call.Common().Args[ti])
+			ok := strings.HasPrefix(t, "Option.tag(") || strings.HasPrefix(t, "Arg.tag(")
+			r.Check(ok, "TAG", c.fname(s.Fn), "conversion governed by the declaration's own tag", c.ipos(s.Call), "convert(_, _, option.tag | arg.tag)", "convert is given the tag "+trunc(t, 80)+": base and other conversion tags of the declaration are ignored")
+		}
+		r.Check(n >= 4, "TAG", c.fname(cv), "entry conversions found", c.pos(cv.Pos()), "≥ 4 call sites outside the converter", fmt.Sprintf("%d", n))
+	}
 	if cv == nil || set == nil {
 		return
 	}
